@@ -66,6 +66,7 @@ type PropSpec struct {
 	Bounded  []string
 	NotDecided []string
 	Assume   []string
+	DeadOK   map[string]string // "file.go:line" suffix → reason: return statements reviewed as genuinely unreachable
 	Budget   int
 }
 
@@ -108,6 +109,13 @@ func loadPropSpec(id string) (*PropSpec, error) {
 			ps.NotDecided = append(ps.NotDecided, strings.TrimSpace(strings.TrimPrefix(line, "not-decided")))
 		case "assume":
 			ps.Assume = append(ps.Assume, strings.TrimSpace(strings.TrimPrefix(line, "assume")))
+		case "unreachable-ok":
+			if len(fs) >= 2 {
+				if ps.DeadOK == nil {
+					ps.DeadOK = map[string]string{}
+				}
+				ps.DeadOK[fs[1]] = strings.Join(fs[2:], " ")
+			}
 		case "budget":
 			ps.Budget, _ = strconv.Atoi(fs[1])
 		default:
